@@ -163,6 +163,19 @@ def run(F, ck, tier):
     ck.rule('R04.3', 'prover / native verifier / in-circuit verifier transcripts are the same sequence of (absorb|squeeze, unit, looped) events; only events under a condition may be unmatched and each unmatched one is reviewed')
     ck.rule('R04.4', 'duplex sponge typestate in Challenger and RecursiveChallenger')
     ck.rule('R04.5', 'only iop::challenger (and the reviewed grinding shortcut fri_proof_of_work) touches sponge_state / input_buffer / output_buffer')
+    run_protocols(F, ck)
+    # ---------------------------------------------------------------- R04.4
+    sponge_typestate(F, ck)
+    # ---------------------------------------------------------------- R04.5
+    layering(F, ck)
+    ck.decided += ['verifier transcripts (native + circuit, PLONK + STARK) absorb every statement and proof field', 'each challenge is squeezed after what it must follow',
+                   'prover, verifier and circuit transcripts agree', 'sponge buffer typestate', 'sponge state is private to the challenger']
+    ck.undecided += ['collision resistance / random-oracle behaviour of the permutation (C13)', 'that absorbed encodings are injective']
+    return ('Decides the structural core of C04: the transcript is the ordered sequence of observe/get calls on the challenger, extracted from the typed program with all transcript helpers inlined; '
+            'completeness is checked against the struct fields enumerated by the type checker, ordering against a protocol table, and the three sides are aligned. Hash behaviour is not decided.')
+
+
+def run_protocols(F, ck):
     trs = {}
     for proto, sides in SIDES.items():
         for side, (q, crate, extra) in sides.items():
@@ -172,9 +185,9 @@ def run(F, ck, tier):
                 continue
             tev, fl = transcript.extract(F, cands[0], extra_inline=extra)
             trs[(proto, side)] = (tev, fl, cands[0])
-    ck.floor('R04.3', 'transcript functions extracted', len(trs), 6)
+    ck.floor('R04.3', 'transcript functions extracted', len(trs), 3 * len(SIDES))
     nev = sum(len(v[0]) for v in trs.values())
-    ck.floor('R04.3', 'transcript events', nev, 150)
+    ck.floor('R04.3', 'transcript events', nev, 70 * len(SIDES))
 
     # ---------------------------------------------------------------- R04.1
     for proto in SIDES:
@@ -272,6 +285,8 @@ def run(F, ck, tier):
                 ck.ob('R04.3', k2, reason is not None, ('reviewed asymmetry: ' + reason) if reason else
                       'conditional %s event %s in %s has no counterpart on the other side (%s vs %s)' % (t.kind, t.method, t.fn.qual, trs[(proto, x)][2].qual, trs[(proto, y)][2].qual), t.loc)
     # FRI tail of the batch prover against the verifier's fri_challenges
+    if 'plonk' not in SIDES:
+        return
     bp = F.one('batch_fri::prover::batch_fri_proof', crate='plonky2')
     fc = [f for f in F.find('Challenger::fri_challenges', crate='plonky2')]
     if bp is None or len(fc) != 1:
@@ -284,15 +299,6 @@ def run(F, ck, tier):
         ok, info = align(a2, b)
         ck.ob('R04.3', 'agree:batch_fri:V~P', ok, ('%d and %d events align' % (len(a2), len(b))) if ok else 'batch_fri_proof transcript diverges from Challenger::fri_challenges at %s / %s' % info, fc[0].file)
 
-    # ---------------------------------------------------------------- R04.4
-    sponge_typestate(F, ck)
-    # ---------------------------------------------------------------- R04.5
-    layering(F, ck)
-    ck.decided += ['verifier transcripts (native + circuit, PLONK + STARK) absorb every statement and proof field', 'each challenge is squeezed after what it must follow',
-                   'prover, verifier and circuit transcripts agree', 'sponge buffer typestate', 'sponge state is private to the challenger']
-    ck.undecided += ['collision resistance / random-oracle behaviour of the permutation (C13)', 'that absorbed encodings are injective']
-    return ('Decides the structural core of C04: the transcript is the ordered sequence of observe/get calls on the challenger, extracted from the typed program with all transcript helpers inlined; '
-            'completeness is checked against the struct fields enumerated by the type checker, ordering against a protocol table, and the three sides are aligned. Hash behaviour is not decided.')
 
 
 def field_ops(fn, field):
